@@ -7,7 +7,7 @@ from .arrays import *
 BUILTINS = {'len', 'range', 'enumerate', 'zip', 'reversed', 'list', 'tuple', 'min', 'max', 'sum', 'abs', 'int',
             'float', 'sorted', 'all', 'any', 'isinstance', 'print', 'str', 'dict', 'set', 'bool', 'iter', 'next',
             'exit', 'round', 'type', 'ValueError', 'TypeError', 'RuntimeError', 'Exception', 'IndexError',
-            'KeyError', 'StopIteration', 'ZeroDivisionError', 'map', 'filter'}
+            'KeyError', 'StopIteration', 'ZeroDivisionError', 'map', 'filter', 'object', 'id', 'hash', 'repr', 'getattr', 'hasattr'}
 
 
 class RangeVal:
@@ -519,7 +519,7 @@ def np_flip(ex, st, a, **kw):
 
 
 LIB = {
-    'np.array': np_array, 'np.asarray': np_asarray, 'np.arange': np_arange, 'np.full': np_full,
+    'np.array': np_array, 'np.asarray': np_asarray, 'np.fromiter': lambda ex, st, v, **kw: np_array(ex, st, v), 'np.arange': np_arange, 'np.full': np_full,
     'np.ones': np_ones, 'np.zeros': np_zeros, 'np.zeros_like': np_zeros_like, 'np.minimum': np_minimum,
     'np.maximum': np_maximum, 'np.copy': np_copy, 'np.sum': np_sum, 'np.any': np_any, 'np.all': np_all,
     'np.argmax': np_argmax, 'np.argmin': np_argmin, 'np.max': np_max, 'np.amax': np_max, 'np.min': np_min,
@@ -718,7 +718,8 @@ def call_lib(ex, st, name, args, kwargs, node):
     elif name in ('builtins.max', 'builtins.min') and 'key' in kwargs:
         kwargs = dict(kwargs)
         kwargs['_node'] = node
-    kwargs.pop('dtype', None) if name in ('np.array', 'np.asarray') else None
+    if name in ('np.array', 'np.asarray', 'np.fromiter'):
+        kwargs = {}
     return fn(ex, st, *args, **kwargs)
 
 
